@@ -209,6 +209,43 @@ func (x *Exec) heapWfAxiom(h *Term, comp string, alloc *Term) {
 	x.U.AddAxiom(h.Op, ax)
 }
 
+// freshRangeWf: with row-level havoc the objects allocated by earlier iterations are the (otherwise unconstrained) rows of the
+// underlying heap variable in [lo, hi); like every allocated object their content is well-formed w.r.t. the bound hi.
+func (x *Exec) freshRangeWf(st *State, h *Term, comp string, lo, hi *Term) {
+	root := h
+	for root.Kind == kApp && root.Op == "store" {
+		root = root.Args[0]
+	}
+	if root.Kind != kVar {
+		return
+	}
+	a, i := Var("wa", SInt), Var("wi", SInt)
+	rng := And(Cmp(">=", a, lo), Cmp("<", a, hi))
+	switch {
+	case strings.HasPrefix(comp, "HS_"):
+		_, row := root.Sort.ArrayParts()
+		_, es := row.ArrayParts()
+		e := Select(Select(root, a), i)
+		if w := x.wfSortAt(hi, e, es, 0); !w.IsTrue() {
+			st.assume(Forall([]*Term{a, i}, Implies(rng, w), []*Term{e}))
+		}
+	case strings.HasPrefix(comp, "HP_"):
+		_, es := root.Sort.ArrayParts()
+		e := Select(root, a)
+		if w := x.wfSortAt(hi, e, es, 0); !w.IsTrue() {
+			st.assume(Forall([]*Term{a}, Implies(rng, w), []*Term{e}))
+		}
+	case strings.HasPrefix(comp, "MV_"):
+		_, row := root.Sort.ArrayParts()
+		ks, vs := row.ArrayParts()
+		k := Var("wk", ks)
+		e := Select(Select(root, a), k)
+		if w := x.wfSortAt(hi, e, vs, 0); !w.IsTrue() {
+			st.assume(Forall([]*Term{a, k}, Implies(rng, w), []*Term{e}))
+		}
+	}
+}
+
 // rowWfAssume: the content of a havocked object is well-formed.
 func (x *Exec) rowWfAssume(st *State, row *Term, comp string, alloc *Term) {
 	switch {
@@ -1002,10 +1039,25 @@ func (x *Exec) havocLoop(st *State, fr *Frame, lp *Loop) {
 				x.rowWfAssume(st, row, c, st.alloc)
 			}
 			st.heap[c] = cur
+			if writes.allocates {
+				x.freshRangeWf(st, cur, c, allocPre, st.alloc)
+			}
 			continue
 		}
 		st.heap[c] = nh
 		x.heapWfAxiom(nh, c, st.alloc)
+	}
+	// accumulators keep the backing array they entered the loop with, or use one allocated inside the loop
+	for _, sa := range writes.selfAppends {
+		var cur *Term
+		if x.info(fr.fn).isCell[sa.alloc] {
+			cur = st.cells[cellKey{fr.id, sa.alloc}]
+		} else if pv, ok := fr.vals[sa.alloc]; ok && pv.Loc != nil {
+			cur = x.load(st, pv.Loc)
+		}
+		if cur != nil {
+			st.assume(Or(Eq(SlArr(cur), sa.arr0), Cmp(">=", SlArr(cur), allocPre)))
+		}
 	}
 	// map-range iterator ghost state
 	if lp.rangeIt != nil {
@@ -1037,11 +1089,20 @@ type compWrite struct {
 	unknownTarget bool
 }
 
+type selfAppend struct {
+	alloc *ssa.Alloc
+	arr0  *Term // backing array of the accumulator when the loop is entered
+}
+
 type loopWriteSet struct {
 	cells     map[*ssa.Alloc]bool
 	comps     map[string]*compWrite
 	allocates bool
 	calls     bool
+	// accumulators: locals that the loop only ever assigns "append(itself, ...)" (or loop-fresh slices).  Their backing array is
+	// the one they had when the loop was entered or one allocated inside the loop, so an append writes only those.
+	selfAppends  []selfAppend
+	appendTarget func(v ssa.Value) *Term
 }
 
 // loopWrites computes what the loop body may modify, with targets evaluated in the state at the loop head.
@@ -1152,6 +1213,45 @@ func (x *Exec) loopWrites(st *State, fr *Frame, lp *Loop) *loopWriteSet {
 	}
 	// loopFresh: the value is an object allocated in the current iteration (so no object that existed at the loop head is written through it)
 	var loopFresh func(v ssa.Value, depth int) bool
+	// selfAppendOnly: inside the loop the slice variable a is only loaded, or assigned append(a, ...) (when othersFresh: or a
+	// loop-fresh slice).
+	selfAppendOnly := func(a *ssa.Alloc, othersFresh bool) bool {
+		refs := a.Referrers()
+		if refs == nil {
+			return false
+		}
+		n := 0
+		for _, r := range *refs {
+			if !lp.blocks[r.Block()] {
+				continue
+			}
+			switch r := r.(type) {
+			case *ssa.Store:
+				if r.Addr != a {
+					return false
+				}
+				ok := false
+				if c, isCall := r.Val.(*ssa.Call); isCall {
+					if b, isB := c.Common().Value.(*ssa.Builtin); isB && b.Name() == "append" {
+						if ld, isLd := c.Common().Args[0].(*ssa.UnOp); isLd && ld.Op == token.MUL && ld.X == a {
+							ok = true
+						}
+					}
+				}
+				if !ok && othersFresh && loopFresh(r.Val, 3) {
+					ok = true
+				}
+				if !ok {
+					return false
+				}
+				n++
+			case *ssa.UnOp, *ssa.DebugRef:
+			default:
+				return false
+			}
+		}
+		return n > 0
+	}
 	loopFresh = func(v ssa.Value, depth int) bool {
 		if depth > 4 || !inLoop(v) {
 			return false
@@ -1161,6 +1261,14 @@ func (x *Exec) loopWrites(st *State, fr *Frame, lp *Loop) *loopWriteSet {
 			return true
 		case *ssa.Alloc:
 			return !fi.isCell[v]
+		case *ssa.Slice:
+			return loopFresh(v.X, depth+1)
+		case *ssa.Call:
+			// append(s, ...) returns s's backing array or a new one
+			if b, ok := v.Common().Value.(*ssa.Builtin); ok && b.Name() == "append" {
+				return loopFresh(v.Common().Args[0], depth+1)
+			}
+			return false
 		case *ssa.UnOp:
 			if v.Op != token.MUL {
 				return false
@@ -1168,6 +1276,9 @@ func (x *Exec) loopWrites(st *State, fr *Frame, lp *Loop) *loopWriteSet {
 			a, ok := v.X.(*ssa.Alloc)
 			if !ok || !lp.blocks[a.Block()] {
 				return false
+			}
+			if _, isSlice := types.Unalias(deref(a.Type())).Underlying().(*types.Slice); isSlice && selfAppendOnly(a, true) {
+				return true // declared in the loop, starts nil or loop-fresh, and only ever appended to
 			}
 			// every store to the variable stores a loop-fresh value; other uses are loads or call arguments
 			refs := a.Referrers()
@@ -1243,6 +1354,36 @@ func (x *Exec) loopWrites(st *State, fr *Frame, lp *Loop) *loopWriteSet {
 				}
 			}
 		}
+	}
+	ws.appendTarget = func(v ssa.Value) *Term {
+		if loopFresh(v, 0) {
+			return IntLit(-1)
+		}
+		if ld, ok := v.(*ssa.UnOp); ok && ld.Op == token.MUL {
+			if a, ok := ld.X.(*ssa.Alloc); ok && !lp.blocks[a.Block()] && selfAppendOnly(a, false) {
+				var cur *Term
+				if fi.isCell[a] {
+					cur = st.cells[cellKey{fr.id, a}]
+				} else if pv, ok := fr.vals[a]; ok && pv.Loc != nil {
+					cur = x.load(st, pv.Loc)
+				}
+				if cur != nil && cur.Sort == SSlice {
+					arr0 := SlArr(cur)
+					dup := false
+					for _, sa := range ws.selfAppends {
+						dup = dup || sa.alloc == a
+					}
+					if !dup {
+						ws.selfAppends = append(ws.selfAppends, selfAppend{alloc: a, arr0: arr0})
+					}
+					return arr0
+				}
+			}
+		}
+		if hv, ok := headVal(v, 0); ok && hv.T != nil && hv.T.Sort == SSlice {
+			return SlArr(hv.T)
+		}
+		return nil
 	}
 	scanFn(fr.fn, blocks, true, 0)
 	return ws
@@ -1324,7 +1465,11 @@ func (x *Exec) scanCallWrites(call *ssa.Call, fn *ssa.Function, top bool, depth 
 		case "append":
 			st := types.Unalias(cc.Args[0].Type()).Underlying().(*types.Slice)
 			es := x.TI.SortOf(st.Elem())
-			addComp(hsComp(es), hsSort(es), nil)
+			var tgt *Term
+			if top && ws.appendTarget != nil {
+				tgt = ws.appendTarget(cc.Args[0])
+			}
+			addComp(hsComp(es), hsSort(es), tgt)
 		case "copy":
 			st := types.Unalias(cc.Args[0].Type()).Underlying().(*types.Slice)
 			es := x.TI.SortOf(st.Elem())
